@@ -28,6 +28,7 @@ MAX_BLOCKS = 150
 MAX_DEPTH = 3
 MAX_SHARED_SITES = 8       # a small helper shared by a few call sites (a de-duplicated block) is folded into each
 MAX_SHARED_BLOCKS = 60
+MAX_PUBLIC_BLOCKS = 20
 _VOCAB = None
 
 
@@ -62,8 +63,10 @@ def eligible(fa, h, caller):
         return False
     if h.root or h.parent or h.d.get("coroutine") or h.kind not in ("Fn", "AssocFn"):
         return False
-    if not str(h.d.get("vis", "")).startswith("Restricted") or h.d.get("impl_trait") or h.d.get("trait_default"):
+    if h.d.get("impl_trait") or h.d.get("trait_default"):
         return False
+    if not str(h.d.get("vis", "")).startswith("Restricted") and len(h.blocks) > MAX_PUBLIC_BLOCKS:
+        return False        # a `pub` function is folded only when it is tiny (a predicate / accessor such as `fits`)
     f = fa.fns.get(h.path) or {}
     if f.get("async"):
         return False
